@@ -25,7 +25,8 @@
 //   evaluation: reference evaluator from the mathematical definitions (asec x = acos(1/x), coth = cosh/sinh, ...) at
 //     2*prec+64 bits; conditioning is estimated by re-running it with every intermediate result perturbed by a
 //     relative 2^-prec; V must lie within 8 * spread + 4 ulp (cases that lose more than half of the digits to such
-//     perturbations are not judged).  This part is TESTING, not proof.
+//     perturbations -- in the result or in any intermediate value -- are not judged; precisions below 24 bits are
+//     not judged).  This part is TESTING, not proof.
 #include <cmath>
 #include <map>
 #include <vector>
@@ -159,6 +160,9 @@ struct Ref {
     bool perturb;
     uint64_t rng;
     bool bad;
+    bool ill;                          // some intermediate result moved by more than 2^-(p/2) relative under the perturbations
+    std::vector<mpfr_class> *base;     // values of the nodes in the unperturbed run, in visiting order
+    size_t idx;
 };
 
 static void perturb(Ref &r, mpfr_ptr x)
@@ -183,6 +187,7 @@ static void perturb(Ref &r, mpfr_ptr x)
 }
 
 static void ref_eval(Ref &r, const Basic &b, mpfr_ptr out);
+static void ref_eval_inner(Ref &r, const Basic &b, mpfr_ptr out);
 
 static void ref_un(Ref &r, const Basic &arg, mpfr_ptr out, const std::function<void(mpfr_ptr, mpfr_ptr)> &f)
 {
@@ -195,6 +200,35 @@ static void ref_un(Ref &r, const Basic &arg, mpfr_ptr out, const std::function<v
 
 static void ref_eval(Ref &r, const Basic &b, mpfr_ptr out)
 {
+    ref_eval_inner(r, b, out);
+    if (r.base == nullptr)
+        return;
+    if (!r.perturb) {
+        mpfr_class c(r.hp);
+        mpfr_set(c.get_mpfr_t(), out, MPFR_RNDN);
+        r.base->push_back(std::move(c));
+    } else if (r.idx < r.base->size()) {
+        mpfr_srcptr ref = (*r.base)[r.idx++].get_mpfr_t();
+        if (mpfr_number_p(ref) && mpfr_number_p(out)) {
+            mpfr_t d, lim;
+            mpfr_init2(d, r.hp);
+            mpfr_init2(lim, r.hp);
+            mpfr_sub(d, out, ref, MPFR_RNDN);
+            mpfr_abs(d, d, MPFR_RNDN);
+            mpfr_abs(lim, ref, MPFR_RNDN);
+            mpfr_mul_2si(lim, lim, -(long)(r.p / 2), MPFR_RNDN);
+            if (mpfr_cmp(d, lim) > 0)
+                r.ill = true;
+            mpfr_clear(d);
+            mpfr_clear(lim);
+        } else if (mpfr_number_p(ref) != mpfr_number_p(out)) {
+            r.ill = true;
+        }
+    }
+}
+
+static void ref_eval_inner(Ref &r, const Basic &b, mpfr_ptr out)
+{
     const mpfr_rnd_t N = MPFR_RNDN;
     TypeID t = b.get_type_code();
     vec_basic args = b.get_args();
@@ -202,13 +236,17 @@ static void ref_eval(Ref &r, const Basic &b, mpfr_ptr out)
     switch (t) {
         case SYMENGINE_INTEGER:
             mpfr_set_z(out, get_mpz_t(down_cast<const Integer &>(b).as_integer_class()), N);
-            return; // not perturbed: the library's leaf conversion is one rounding, accounted for by the 4 ulp slack
+            if (mpfr_min_prec(out) <= r.p)
+                return; // representable with p bits: the library's conversion is exact
+            break;
         case SYMENGINE_RATIONAL:
             mpfr_set_q(out, get_mpq_t(down_cast<const Rational &>(b).as_rational_class()), N);
             break;
         case SYMENGINE_REAL_DOUBLE:
             mpfr_set_d(out, down_cast<const RealDouble &>(b).i, N);
-            return;
+            if (!mpfr_number_p(out) || mpfr_zero_p(out) || mpfr_min_prec(out) <= r.p)
+                return;
+            break;
         case SYMENGINE_REAL_MPFR:
             mpfr_set(out, down_cast<const RealMPFR &>(b).i.get_mpfr_t(), N);
             break;
@@ -328,14 +366,21 @@ static void ref_eval(Ref &r, const Basic &b, mpfr_ptr out)
                 mpfr_gamma_inc(out, a, c, N);
             } else if (t == SYMENGINE_LOWERGAMMA) {
                 mpfr_gamma_inc(out, a, c, N);
+                perturb(r, out);
                 mpfr_gamma(a, a, N);
+                perturb(r, a);
                 mpfr_sub(out, a, out, N);
             } else {
                 mpfr_add(out, a, c, N);
+                perturb(r, out);
                 mpfr_gamma(out, out, N);
+                perturb(r, out);
                 mpfr_gamma(a, a, N);
+                perturb(r, a);
                 mpfr_gamma(c, c, N);
+                perturb(r, c);
                 mpfr_mul(a, a, c, N);
+                perturb(r, a);
                 mpfr_div(out, a, out, N);
             }
             mpfr_clear(a);
@@ -571,13 +616,17 @@ static void run_expr(const std::string &rest, int wfd)
     emit_fd(wfd, "\tO=" + oracle_entries(prec, *b));
     // ---- accuracy against the reference (testing)
     std::string U = "-";
-    if (have && mpfr_number_p(v.get_mpfr_t())) {
+    if (have && prec >= 24 && mpfr_number_p(v.get_mpfr_t())) {
         Ref r;
         r.hp = 2 * prec + 64;
         r.p = prec;
         r.perturb = false;
         r.rng = 12345;
         r.bad = false;
+        r.ill = false;
+        std::vector<mpfr_class> base;
+        r.base = &base;
+        r.idx = 0;
         mpfr_t ref, alt, d, spread, tol;
         mpfr_init2(ref, r.hp);
         mpfr_init2(alt, r.hp);
@@ -592,7 +641,10 @@ static void run_expr(const std::string &rest, int wfd)
                 Ref q = r;
                 q.perturb = true;
                 q.rng = 777 + 1000003 * (uint64_t)k;
+                q.idx = 0;
                 ref_eval(q, *b, alt);
+                if (q.ill)
+                    r.ill = true;
                 if (q.bad || !mpfr_number_p(alt)) {
                     ok = false;
                     break;
@@ -638,7 +690,7 @@ static void run_expr(const std::string &rest, int wfd)
                 mpfr_init2(lim, r.hp);
                 mpfr_abs(lim, ref, MPFR_RNDN);
                 mpfr_mul_2si(lim, lim, -(long)(prec / 2), MPFR_RNDN);
-                bool ill = mpfr_cmp(spread, lim) > 0;
+                bool ill = r.ill || mpfr_cmp(spread, lim) > 0;
                 mpfr_clear(lim);
                 if (ill)
                     U = "-";
